@@ -270,6 +270,28 @@ def _edge_cases(tier, seed):
                            depth=depth, maxmatch=int(rng.choice([-1, 0, 1000])), kind="edge-" + where, self_match=False)
 
 
+    # catalogues that overlap only partly: first-set points in and far outside the declination / right-ascension range of the
+    # second set, interleaved (anything that pre-selects one list must keep reporting positions in the caller's arrays)
+    for rep in range(2 if tier == "quick" else 12):
+        n2 = int(rng.integers(30, 80))
+        ra0, dec0 = float(rng.uniform(0, 360)), float(rng.uniform(-60, 60))
+        ra2 = (ra0 + rng.uniform(-1, 1, n2)) % 360
+        dec2 = dec0 + rng.uniform(-1, 1, n2)
+        radius = float(rng.choice([0.01, 0.2]))
+        n1 = 2 * int(rng.integers(6, 15))
+        ra1, dec1 = np.empty(n1), np.empty(n1)
+        pick = rng.integers(0, n2, n1)
+        inside = rng.random(n1) < 0.5
+        inside[1], inside[0] = True, False
+        ra1[inside] = ra2[pick[inside]] + 0.3 * radius
+        dec1[inside] = dec2[pick[inside]] + 0.3 * radius
+        far = rng.choice([-1.0, 1.0], n1) * rng.uniform(5, 25, n1)
+        ra1[~inside] = ra2[pick[~inside]] + (far[~inside] if rep % 2 else 0.0)
+        dec1[~inside] = np.clip(dec2[pick[~inside]] + (0.0 if rep % 2 else far[~inside]), -90, 90)
+        yield dict(ra1=ra1 % 360, dec1=dec1, ra2=ra2, dec2=dec2, radius=radius, depth=int(rng.choice([6, 9, 10])),
+                   maxmatch=int(rng.choice([-1, 1, 3])), kind="partly-overlapping", self_match=False)
+
+
 @domain("esutil.htm#match")
 def _dom_match(tier, seed):
     import itertools
